@@ -166,8 +166,10 @@ size_t g_strip_K;       /* arbitrary index ("for all K") */
 #define ST_STR   Chunk_m_str(chunk)
 #define ST_SIZE  UT_size(ST_STR)
 #define ST_OLD   __CPROVER_old(UT_size(Chunk_m_str(chunk)))
-size_t tokenize_strip_contract(struct Chunk *chunk, size_t col)
-__CPROVER_requires(__CPROVER_is_fresh(chunk, SIZEOF_Chunk) && !Chunk_m_nullChunk(chunk) && UT_FRESH_IN(Chunk_m_str(chunk)) && UT_size(Chunk_m_str(chunk)) < (1UL << 30) && col < (1UL << 40))
+extern struct Chunk *const SC;
+#define chunk SC
+size_t tokenize_strip_contract(size_t col)
+__CPROVER_requires(!Chunk_m_nullChunk(chunk) && UT_FRESH_IN(Chunk_m_str(chunk)) && UT_size(Chunk_m_str(chunk)) < (1UL << 30) && col < (1UL << 40))
 __CPROVER_assigns(DI_size(UT_chars(Chunk_m_str(chunk))), Chunk_m_origColEnd(chunk))
 /* only a suffix is removed, and everything removed is a blank or a tab */
 __CPROVER_ensures(ST_SIZE <= ST_OLD && __CPROVER_return_value == ST_OLD - ST_SIZE && Chunk_m_origColEnd(chunk) == col - (ST_OLD - ST_SIZE))
@@ -180,3 +182,4 @@ __CPROVER_ensures(Chunk_m_type(chunk) != CT_IGNORED_V ==> (ST_SIZE == 0 || (UT_a
 /* C03 / C02: stripping never exposes a backslash as the last character */
 __CPROVER_ensures(ST_SIZE < ST_OLD ==> (ST_SIZE == 0 || UT_at(ST_STR, ST_SIZE - 1) != '\\'))
 ;
+#undef chunk
